@@ -5,20 +5,31 @@ import datetime
 
 import z3
 
-from . import core
+from . import core, lin as L
 from .core import Ctx, SymBool
+from .lin import Lin
 
 EPOCH = datetime.datetime(2000, 1, 1, tzinfo=datetime.timezone.utc)
 UTC = datetime.timezone.utc
 
 
 def to_us(d):
+    """int for ordinary datetimes, Lin for symbolic ones"""
     if isinstance(d, SymDT):
         return d._e
     if d.tzinfo is None:
         raise TypeError("naive datetime mixed with symbolic datetime")
     delta = d - EPOCH
     return (delta.days * 86400 + delta.seconds) * 10 ** 6 + delta.microseconds
+
+
+def _lin(x):
+    return x if isinstance(x, Lin) else Lin({}, x)
+
+
+def _cmpb(op, a, b):
+    e = L.cmp(op, _lin(a), _lin(b))
+    return e if isinstance(e, bool) else SymBool(e)
 
 
 def from_us(n):
@@ -35,8 +46,7 @@ def _c(op):
     def f(self, o):
         if not isinstance(o, datetime.datetime):
             return NotImplemented
-        a, b = self._e, to_us(o)
-        return SymBool({"lt": a < b, "le": a <= b, "gt": a > b, "ge": a >= b, "eq": a == b, "ne": a != b}[op])
+        return _cmpb(op, self._e, to_us(o))
     return f
 
 
@@ -51,7 +61,7 @@ class SymDT(datetime.datetime):
 
     def __new__(cls, e):
         self = super().__new__(cls, 2000, 1, 1, tzinfo=UTC)
-        self._e = e
+        self._e = e if isinstance(e, Lin) else L.lin(e)
         return self
 
     __lt__ = _c("lt")
@@ -65,23 +75,23 @@ class SymDT(datetime.datetime):
     def __add__(self, td):
         if not isinstance(td, (datetime.timedelta, SymTD)):
             return NotImplemented
-        return SymDT(self._e + td_us(td))
+        return SymDT(L.add(self._e, _lin(td_us(td))))
     __radd__ = __add__
 
     def __sub__(self, o):
         if isinstance(o, (datetime.timedelta, SymTD)):
-            return SymDT(self._e - td_us(o))
+            return SymDT(L.sub(self._e, _lin(td_us(o))))
         if isinstance(o, datetime.datetime):
-            return SymTD(self._e - to_us(o))
+            return SymTD(L.sub(self._e, _lin(to_us(o))))
         return NotImplemented
 
     def __rsub__(self, o):
         if isinstance(o, datetime.datetime):
-            return SymTD(to_us(o) - self._e)
+            return SymTD(L.sub(_lin(to_us(o)), self._e))
         return NotImplemented
 
     def __repr__(self):
-        return "SymDT(%s)" % (self._e,)
+        return "SymDT(%s)" % (self._e.z(),)
     __str__ = __repr__
 
     def __format__(self, spec):
@@ -114,21 +124,21 @@ class SymTD:
     __slots__ = ("_e",)
 
     def __init__(self, e):
-        self._e = e
+        self._e = e if isinstance(e, Lin) else L.lin(e)
 
     def total_seconds(self):
         from .num import SymReal
-        return SymReal(z3.ToReal(self._e) / 1000000)
+        return SymReal(z3.ToReal(self._e.z()) / 1000000)
 
     def __bool__(self):
-        return Ctx.cur.branch(self._e != 0)
+        r = _cmpb("ne", self._e, 0)
+        return r if isinstance(r, bool) else bool(r)
 
     def _cmp(op):
         def f(self, o):
             if not isinstance(o, (datetime.timedelta, SymTD)):
                 return NotImplemented
-            a, b = self._e, td_us(o)
-            return SymBool({"lt": a < b, "le": a <= b, "gt": a > b, "ge": a >= b, "eq": a == b, "ne": a != b}[op])
+            return _cmpb(op, self._e, td_us(o))
         return f
     __lt__ = _cmp("lt")
     __le__ = _cmp("le")
@@ -140,14 +150,14 @@ class SymTD:
 
     def __add__(self, o):
         if isinstance(o, datetime.datetime):
-            return SymDT(to_us(o) + self._e)
+            return SymDT(L.add(_lin(to_us(o)), self._e))
         if isinstance(o, (datetime.timedelta, SymTD)):
-            return SymTD(self._e + td_us(o))
+            return SymTD(L.add(self._e, _lin(td_us(o))))
         return NotImplemented
     __radd__ = __add__
 
     def __neg__(self):
-        return SymTD(-self._e)
+        return SymTD(L.neg(self._e))
 
     def __repr__(self):
         return "SymTD(%s)" % (self._e,)
